@@ -2,8 +2,8 @@
    error, no wrap-around, or a loud refusal.  Each theorem is closed by `exact <lemma>` and
    followed by Print Assumptions. *)
 From Coq Require Import ZArith QArith Qabs Reals List Bool Lia Floats.SpecFloat.
-From Flocq Require Import Core.Zaux Core.Ulp Core.FLT IEEE754.BinarySingleNaN.
-From NV Require Import C02.Model C02.Tables C02.Lemmas C02.ModelQ C02.LemmasQ C02.ModelF C02.LemmasF C02.LemmasFW.
+From Flocq Require Import Core.Zaux Core.Generic_fmt Core.Round_NE Core.Ulp Core.FLT IEEE754.BinarySingleNaN.
+From NV Require Import C02.Model C02.Tables C02.Lemmas C02.ModelQ C02.LemmasQ C02.ModelF C02.LemmasF C02.LemmasFW C02.LemmasFN C02.LemmasFR.
 Import ListNotations.
 Open Scope Z_scope.
 
@@ -190,6 +190,83 @@ Theorem C02_no_wrap_float_platform : forall w t sl it p_mn p_mx nf x,
 Proof. exact no_wrap_platform. Qed.
 Print Assumptions C02_no_wrap_float_platform.
 
+(* C02_no_wrap_float_inputs: the premises reduced to facts about the INPUTS only.  For the three
+   working formats x eight integer types, a slope that is a finite non-zero float and an
+   intercept that is a finite float of any format not wider than the working format (the
+   float32 header values; conversion to the working format is exact, lemma fconv_exact), ANY
+   non-NaN thresholds e_mn, e_mx (finite range of the data or -inf/+inf), and an element that is
+   either anything (nan2zero, nan fill inside the safe range) or not NaN (nan2zero off): the
+   scaled thresholds and the scaled element are never NaN (Bminus/Bdiv/Bnearbyint never produce
+   NaN from non-NaN operands with a finite non-zero divisor) and the value handed to the final
+   cast is an integer inside the safe range: no wrap. *)
+Theorem C02_no_wrap_float_inputs : forall w t ks ki slope inter e_mn e_mx nf x,
+  In w [K32; K64; K80] -> In t all_itys -> krank ks <= krank w -> krank ki <= krank w ->
+  is_finite_strict (sf2b ks slope) = true -> is_finite (sf2b ki inter) = true ->
+  bnan w e_mn = false -> bnan w e_mx = false ->
+  let sl := fconv w slope in
+  let it := fconv w inter in
+  let p_mn := frint w (scale_w w sl it e_mn) in
+  let p_mx := frint w (scale_w w sl it e_mx) in
+  exists bmn bmx, sr_k w t = Ok (bmn, bmx) /\ imin t <= bmn /\ bmx <= imax t /\
+    let both_mn := f_of_Z w bmn in let both_mx := f_of_Z w bmx in
+    (match nf with
+     | Some n => inrange w both_mn both_mx n
+     | None => bnan w x = false
+     end ->
+     let '(q_mn, q_mx) := post_bounds_f w p_mn p_mx both_mn both_mx in
+     exists z, cast_to_int w t (elem_f w sl it q_mn q_mx nf x) = (z, false)
+               /\ bmn <= z <= bmx /\ wrap t z = z).
+Proof. exact no_wrap_inputs. Qed.
+Print Assumptions C02_no_wrap_float_inputs.
+
+(* non-vacuity: float32 working format, int16 on disk, slope 0.5, intercept 3.0, thresholds
+   -inf/+inf; the hypotheses hold and NaN (with nan fill -6), +inf and 1e6 are written as
+   integers of the type *)
+Example C02_no_wrap_float_nonvacuous :
+  let slope := S754_finite false 8388608 (-24) in
+  let inter := S754_finite false 12582912 (-22) in
+  let sl := fconv K32 slope in let it := fconv K32 inter in
+  let nfill := frint K32 (scale_w K32 sl it fzero) in
+  let p_mn := frint K32 (scale_w K32 sl it (S754_infinity true)) in
+  let p_mx := frint K32 (scale_w K32 sl it (S754_infinity false)) in
+  let '(q_mn, q_mx) := post_bounds_f K32 p_mn p_mx (f_of_Z K32 (-32768)) (f_of_Z K32 32767) in
+  is_finite_strict (sf2b K32 slope) = true /\ is_finite (sf2b K32 inter) = true
+  /\ bnan K32 (S754_infinity true) = false /\ bnan K32 (S754_infinity false) = false
+  /\ sr_k K32 ity_int16 = Ok (-32768, 32767)
+  /\ fle K32 (f_of_Z K32 (-32768)) nfill = true /\ fle K32 nfill (f_of_Z K32 32767) = true
+  /\ cast_to_int K32 ity_int16 (elem_f K32 sl it q_mn q_mx (Some nfill) S754_nan) = (-6, false)
+  /\ cast_to_int K32 ity_int16 (elem_f K32 sl it q_mn q_mx (Some nfill) (S754_infinity false)) = (32767, false)
+  /\ cast_to_int K32 ity_int16 (elem_f K32 sl it q_mn q_mx (Some nfill) (S754_finite false 16000000 (-4))) = (32767, false)
+  /\ cast_to_int K32 ity_int16 (elem_f K32 sl it q_mn q_mx (Some nfill) (S754_finite false 10485760 (-20))) = (14, false).
+Proof. vm_compute. repeat split; reflexivity. Qed.
+
+(* C02_reload_is_rounding: the binary64 reload of the exact float layer (ModelF.read_elem, the
+   NIfTI route of apply_read_scaling) for a stored integer |raw| < 2^53 and ANY finite float32
+   slope and intercept IS round(round(raw*slope) + inter), finite: nothing overflows
+   (|raw*slope| < 2^181).  Bmult_correct / Bplus_correct / binary_normalize_correct. *)
+Theorem C02_reload_is_rounding : forall slope32 inter32 z t, Z.abs z < 2 ^ 53 ->
+  is_finite (sf2b K32 slope32) = true -> is_finite (sf2b K32 inter32) = true ->
+  let r := snd (read_elem t K64 (fconv K64 slope32) (fconv K64 inter32) z) in
+  is_finite (sf2b K64 r) = true
+  /\ B2R (sf2b K64 r) = RN64 (RN64 (IZR z * B2R (sf2b K32 slope32)) + B2R (sf2b K32 inter32)).
+Proof. exact reload_rounding_f32. Qed.
+Print Assumptions C02_reload_is_rounding.
+
+(* C02_float_gap_real_partial: a first float-vs-ideal bound, at the level of the rounding
+   operator, slope-only branch (intercept 0), element inside the clip range: the stored integer
+   is k = rint(RN(x/s)), the reload RN(k*s) (which the float layer computes exactly so, by
+   C02_reload_is_rounding with inter = 0), and
+   |reload - x| <= |s|/2 + |s| * ulp(x/s)/2 + ulp(k*s)/2
+   = the ideal half step of C02_ideal_error_bound plus the two binary64 rounding errors. *)
+Theorem C02_float_gap_real_partial : forall x s : R, s <> 0%R ->
+  let y := RN64 (x / s) in
+  let k := ZnearestE y in
+  let r := RN64 (IZR k * s) in
+  (Rabs (r - x) <= Rabs s * / 2 + Rabs s * (/ 2 * ulp radix2 (FLT_exp (-1074) 53) (x / s))
+                   + / 2 * ulp radix2 (FLT_exp (-1074) 53) (IZR k * s))%R.
+Proof. exact float_gap_real. Qed.
+Print Assumptions C02_float_gap_real_partial.
+
 (* one quantitative piece of the float gap, read side, over the rounding operator RN64 (round to
    nearest even onto binary64, which Flocq's Bmult_correct/Bplus_correct identify with the
    float operations when nothing overflows): RN(RN(raw*slope) + inter) is within half an ulp
@@ -200,30 +277,20 @@ Theorem C02_read_error_real : forall p i : R,
 Proof. exact read_error_real. Qed.
 Print Assumptions C02_read_error_real.
 
-(* C02_float_gap_partial -- NOT PROVED (listed in evidence `unproved_statements`).  Full statement:
-   for the exact float pipeline (ModelF.writer_write then apply_read_scaling), every finite
-   element reloads within |slope|/2 + (|inter| + max|x|) * 2^-22 + |slope| * 2^-20 of its value.
-   Proved pieces: C02_no_wrap_float (no wrap in the float layer) and C02_read_error_real (read side,
-   rounding-operator level).  Missing: the identification B2R (fmul/fadd ...) = RN64 (...) for the
-   reload (Bmult_correct/Bplus_correct with their overflow guards, exactness of int32 -> binary64
-   and float32 -> binary64 conversion = format inclusion), a Flocq error analysis of the float32
-   rounding of slope and intercept and of the working-precision subtraction/division on the write
-   side across three formats, and an exclusion of subnormal
-   slopes (finding S-C02c shows the statement is false there).  The gap is measured instead:
-   the float layer is compared bit for bit with the implementation and the bound is evaluated
-   on every case by the harness. *)
-
-(* non-vacuity: the hypotheses are met by concrete non-trivial instances *)
-Example C02_nonvacuous :
-  wf_fmt fmt_float32
-  /\ floor_exact fmt_float32 (2 ^ 60 + 2 ^ 36 + 1) = COk (Fin (2 ^ 60))      (* double rounding *)
-  /\ floor_exact fmt_float32 (- (2 ^ 24) - 1) = COk (Fin (- (2 ^ 24) - 2))
-  /\ ceil_exact fmt_longdouble (2 ^ 64 + 1) = COk (Fin (2 ^ 64 + 2))
-  /\ floor_exact fmt_float32 (2 ^ 128) = COk PInf
-  /\ shared_range trunc_uint64 fmt_float32 ity_int32 = COk (Fin (- 2 ^ 31), Fin (2 ^ 31 - 128))
-  /\ iu_decide WSlopeInter trunc_uint64 fmt_float32 ity_int16 ity_uint8 (-5) 200 = IUInter (-5)
-  /\ iu_decide WSlope trunc_uint64 fmt_float32 ity_int16 ity_uint8 (-200) 0 = IUFlip
-  /\ iu_decide WPlain trunc_uint64 fmt_float32 ity_int16 ity_uint8 (-5) 200 = IUWriterError.
-Proof.
-  split; [apply all_fmts_wf; cbn; auto|]. repeat split; vm_compute; reflexivity.
-Qed.
+(* C02_float_gap (GENERAL STATEMENT, NOT PROVED; listed in evidence `unproved_statements`): for the
+   exact float pipeline (ModelF.writer_write then apply_read_scaling), every finite element
+   reloads within |slope|/2 + (|inter| + max|x|) * 2^-22 + |slope| * 2^-20 of its value unless the
+   stored slope is subnormal (finding S-C02c shows the statement is false there).
+   Proved pieces: C02_no_wrap_float(_platform/_inputs) (no wrap in the float layer, premises on
+   inputs only), C02_reload_is_rounding (the reload is exactly RN(RN(raw*slope)+inter)),
+   C02_read_error_real and C02_float_gap_real_partial (rounding-operator bounds for the read side
+   and for write+read in the slope-only branch inside the clip range).
+   Missing: (a) the identification of the WRITE side with the rounding operator
+   (Bminus_correct/Bdiv_correct with their overflow guards, for float32 and longdouble working
+   formats as well as binary64, and the exact int/float16/float32 -> working format conversions
+   of the elements); (b) the error of the float32 rounding of slope and intercept against the ideal
+   values chosen by _range_scale (a relative error 2^-24 each, but unbounded relative error for a
+   subnormal slope); (c) the intercept branch (cancellation in x - inter) and clipped elements;
+   (d) conversion of the ulp terms into the stated allowance.  The gap is measured instead: the
+   float layer is compared bit for bit with the implementation and the bound is evaluated on
+   every case by the harness. *)
